@@ -394,7 +394,25 @@ func Mutate(r *rand.Rand, doc []byte, other []byte) []byte {
 
 // Mix produces a random document from the standard mixture: soup, corpus item, or mutated corpus item(s).
 func Mix(r *rand.Rand, corpus []Example) []byte {
-	switch x := r.Intn(10); {
+	switch x := r.Intn(12); {
+	case x >= 10:
+		// an input of the coverage-distilled corpus, as it is or mutated / spliced with another one
+		cov := CovCorpus()
+		if len(cov) == 0 {
+			return Soup(r, 1+r.Intn(30))
+		}
+		d := cov[r.Intn(len(cov))]
+		if x == 10 {
+			return d
+		}
+		o := cov[r.Intn(len(cov))]
+		for i := 1 + r.Intn(3); i > 0; i-- {
+			d = Mutate(r, d, o)
+		}
+		if len(d) > 4096 {
+			d = d[:4096]
+		}
+		return d
 	case x < 4 || len(corpus) == 0:
 		return Soup(r, 1+r.Intn(30))
 	case x < 5:
